@@ -409,6 +409,21 @@ class WireProcess(Process):
         return copy.deepcopy(self.parameters['update'])
 
 
+class WireStep(Step):
+    """WireProcess as a Step (a viewer that runs in the step phases)."""
+    defaults = WireProcess.defaults
+
+    def __init__(self, parameters=None):
+        super().__init__(parameters)
+        self.n_calls = 0
+
+    ports_schema = WireProcess.ports_schema
+    initial_state = WireProcess.initial_state
+    _rec = WireProcess._rec
+    update_condition = WireProcess.update_condition
+    next_update = WireProcess.next_update
+
+
 # ------------------------------------------------------------------ structural kit
 
 SUB_SCHEMA = {'x': {'_default': 7, '_emit': True},
@@ -751,10 +766,14 @@ class CellStep(_CellBase, Step):
 class DivProcess(Process):
     """External divider at the root: divides the cell the harness names, with
     explicit daughters or by copying the mother."""
-    defaults = {'run_id': 0, 'schema': {}, 'mode': 'ext_explicit'}
+    defaults = {'run_id': 0, 'schema': {}, 'mode': 'ext_explicit', 'outer': {}}
 
     def ports_schema(self):
-        return {'agents': {'*': {}}, 'clock': {'tick': {'_default': 0}}}
+        sub = {}
+        if self.parameters['outer']:
+            # variables of every cell that only this process declares
+            sub = {'st': build_schema(self.parameters['outer'])}
+        return {'agents': {'*': sub}, 'clock': {'tick': {'_default': 0}}}
 
     def next_update(self, timestep, states):
         ctx = CTX.get(self.parameters['run_id'])
